@@ -10,6 +10,8 @@ verus! {
 //@include ../frag/state.tpl
 //@include ../frag/endpoints.tpl
 //@include ../frag/heartbeat.tpl
+//@include ../frag/headers.tpl
+//@include ../frag/walk.tpl
 
 proof fn vp_canary_axioms()
     ensures false,
